@@ -96,7 +96,8 @@ func worstHazard(hs []hazard) string {
 // ---------------------------------------------------------------------------
 
 type analysis struct {
-	hazards []hazard
+	invalidUTF8 string // path of the first string value that is not valid UTF-8 ("" = none)
+	hazards     []hazard
 	feat    map[string]bool
 	order   []string // feature names in first-seen order (no map iteration)
 	nodes   []*gnode // every node, pre-order (for sub-node sampling)
@@ -175,6 +176,9 @@ func analyse(root *gnode, src string) *analysis {
 			a.set("nt:type-system-definition")
 		case "StringValue":
 			v := g.Attrs[0].Val
+			if !utf8.ValidString(v) && a.invalidUTF8 == "" {
+				a.invalidUTF8 = path
+			}
 			if g.Desc {
 				a.set("nt:description")
 				a.set("description-on:" + owner)
